@@ -79,6 +79,20 @@ def case(runner, r, base, i, profile, rich_ok, malformed, oc, ereqs, epend, sreq
         sreqs.append(q)
         spend.append((info, engrun.in_listing_order(fl, os.path.join(base, "c%d" % i), name=lambda f: f[0]), err, final))
         wreqs.append(dict(q, cmd="engwf"))
+    if err is None and final and any("nested in <<<STATENAME>>> / " in l for _, ls in fl for l in ls):
+        # the one statement about nested plain blocks that needs no reference expander: on a line of the inner block the
+        # enclosing state's tag has the name of a *state* (the inner block's own element comes behind the slash)
+        import re
+        states_ = {x for row in model["tt"] for x in (row[0], row[2]) if x and x.lower() != "none"}
+        for fname_, text_ in sorted(final.items()):
+            for mm in re.finditer(r"^nested in (\S+) / (\S*)$", text_, re.M):
+                oc.stat("nested_block_lines_checked")
+                if mm.group(1) not in states_:
+                    oc.violations.append(dict(what="a per-element block nested in a transition block: line %r of %s names %r where the enclosing state belongs (states: %s)" % (
+                        mm.group(0), fname_, mm.group(1), sorted(states_)[:6]), **info))
+                    break
+            if oc.violations:
+                break
     kinds = set()
 
     def walk(items):
